@@ -2,6 +2,7 @@ package multiparty
 
 import (
 	"github.com/tuneinsight/lattigo/v6/core/rlwe"
+	"github.com/tuneinsight/lattigo/v6/ring"
 )
 
 // C16 (collective key switching): KeySwitchProtocol (to a secret-shared key, including the zero key = decryption)
@@ -104,4 +105,29 @@ func VerifH_C16_PublicKeySwitch() {
 		}
 	}
 	vCover("C16-pcks-reached")
+}
+
+// Every share carries the requested smudging noise: the sampler of the protocol - and of its shallow copies, which
+// are what concurrent parties use - draws from the distribution derived from the requested flooding parameter
+// (sigma_out^2 = sigma_fresh^2 + sigma_flood^2 for the secret-key switch), never from a smaller one.
+func VerifH_C16_SmudgingNoiseConfigured() {
+	c := VerifSetup_Ctx(0, vIsAlgebraic())
+	params := c.Params
+	flood := ring.DiscreteGaussian{Sigma: 1 << 20, Bound: 6 * (1 << 20)}
+	cks, err := NewKeySwitchProtocol(params, flood)
+	vAssert(err == nil, "KeySwitchProtocol-created")
+	g, ok := cks.noise.(ring.DiscreteGaussian)
+	vAssert(ok && g.Sigma >= flood.Sigma && g.Bound >= flood.Bound, "KeySwitchProtocol-declared-noise-at-least-the-requested-flooding")
+	ref := ring.NewGaussianSampler(c.Parties[0].CRS, params.RingQ(), g, false)
+	cp := cks.ShallowCopy()
+	cpp := cp.ShallowCopy()
+	vAssertSameField(ref, cks.noiseSampler, "xe", "KeySwitchProtocol-sampler-draws-from-the-declared-noise")
+	vAssertSameField(ref, cp.noiseSampler, "xe", "KeySwitchProtocol-ShallowCopy-sampler-draws-from-the-declared-noise")
+	vAssertSameField(ref, cpp.noiseSampler, "xe", "KeySwitchProtocol-copy-of-copy-sampler-draws-from-the-declared-noise")
+	pcks, err := NewPublicKeySwitchProtocol(params, flood)
+	vAssert(err == nil, "PublicKeySwitchProtocol-created")
+	refP := ring.NewGaussianSampler(c.Parties[0].CRS, params.RingQ(), flood, false)
+	pcp := pcks.ShallowCopy()
+	vAssertSameField(refP, pcks.noiseSampler, "xe", "PublicKeySwitchProtocol-sampler-draws-from-the-requested-noise")
+	vAssertSameField(refP, pcp.noiseSampler, "xe", "PublicKeySwitchProtocol-ShallowCopy-sampler-draws-from-the-requested-noise")
 }
